@@ -261,8 +261,8 @@ class AccessControl:
             if ip_obj in network:
                 return False
 
-        # Check allow list
-        if self.allow_networks:
+        # Check allow list (a list that is configured but empty allows nobody)
+        if self.config.allow_list is not None:
             for network in self.allow_networks:
                 if ip_obj in network:
                     return True
